@@ -37,6 +37,7 @@ SOLE_DECIDER = {
     "xexec": {"C06": "the single-threaded executor's message count", "C11": "the single-threaded executor's panic report"},
     "xsched": {"C09": "the in-model re-check of a cancelled key"},
     "lcrw": {"C14": "the second sentence of C14 under thread interleavings"},
+    "lqueue": {"C12": "the queue operations under thread interleavings"},
 }
 EXTRA_STANDINS = {
     "xreg": {"props": XREG_PROPS, "short": "real registration + report text, every model hierarchy up to the bound",
@@ -60,6 +61,9 @@ EXTRA_STANDINS = {
     "lcrw": {"props": {"C14"}, "runner": "loom", "short": "loom: the real CachedRwLock under every thread interleaving within the preemption bound",
              "unit_of_count": "loom models", "scenario_word": "interleaving",
              "what": "loom/cached_rw_lock.rs appended to the real util/cached_rw_lock.rs in a scratch copy and run with the crate's own loom configuration (--cfg nexosim_loom): three threads writing through / refreshing clones of one CachedRwLock, every interleaving within loom's preemption bound; a read that happens after a write returned sees it, a clone's view never goes back. LABELLED BOUNDED: not part of obligations/discharged."},
+    "lqueue": {"props": {"C12"}, "runner": "loom", "short": "loom: the real mailbox Queue, two producers and the consumer under every thread interleaving within the preemption bound",
+               "unit_of_count": "loom models", "scenario_word": "interleaving",
+               "what": "loom/queue.rs appended to the real channel/queue.rs in a scratch copy and run with the crate's own loom configuration: two producer threads pushing two messages each while the consumer pops, capacities 2 and 3, every interleaving within loom's preemption bound (2 quick, 3 thorough); capacity, exactly-once, per-producer order, exact len() at rest. LABELLED BOUNDED: not part of obligations/discharged."},
     "xpq": {"props": {"C20", "C07"}, "short": "real text of both priority queues, every operation sequence up to the bound",
             "unit_of_count": "operation sequences", "scenario_word": "operation sequence",
             "what": "contracts/xpq.rs: util/priority_queue.rs and util/indexed_priority_queue.rs, each file whole up to its test module, cut from /repo with no rewrite rule and compiled as they stand; every operation sequence up to the bound compared with a reference list. LABELLED BOUNDED: not part of obligations/discharged."},
